@@ -61,17 +61,24 @@ pub fn run_case(rng: &mut Rng) -> CaseOut {
     let mut eg: EGraph<LSym> = EGraph::default();
     let mut ids: BTreeMap<usize, AppliedId> = BTreeMap::new();
     let mut unions: Vec<(usize, usize)> = vec![];
+    let mut raw_bad: Option<String> = None;
     let r = guard(|| {
         for op in &h.ops {
             match op {
                 HOp::Add(i) => {
                     let id = eg.add_expr(to_rec::<LSym>(lang, &h.terms[*i]));
+                    if raw_bad.is_none() && id.slots() != eg.find_applied_id(&id).slots() {
+                        raw_bad = Some(format!("add_expr({}) returned {id:?}, canonical form {:?}", h.terms[*i].text(lang, &pname), eg.find_applied_id(&id)));
+                    }
                     ids.insert(*i, id);
                 }
                 HOp::Union(a, b) => {
                     for t in [a, b] {
                         if !ids.contains_key(t) {
                             let id = eg.add_expr(to_rec::<LSym>(lang, &h.terms[*t]));
+                            if raw_bad.is_none() && id.slots() != eg.find_applied_id(&id).slots() {
+                                raw_bad = Some(format!("add_expr({}) returned {id:?}, canonical form {:?}", h.terms[*t].text(lang, &pname), eg.find_applied_id(&id)));
+                            }
                             ids.insert(*t, id);
                         }
                     }
@@ -84,6 +91,10 @@ pub fn run_case(rng: &mut Rng) -> CaseOut {
     });
     if r.is_err() {
         out.inconclusive = Some("history panicked (reported by C02/C08)".into());
+        return out;
+    }
+    if let Some(d) = raw_bad {
+        out.fail(Fail::new("returned-invocation-not-canonical", "history/add_expr", d, cj.clone()));
         return out;
     }
     for op in &h.ops {
@@ -215,6 +226,18 @@ pub fn run_case(rng: &mut Rng) -> CaseOut {
             if s0n != s1 {
                 out.fail(Fail::new("slots-not-equivariant", pr.kind, format!("{txt}: slots {s1:?} but renamed original has {s0n:?}"), cj.clone()));
                 return out;
+            }
+        }
+        // the invocation exactly as returned (not canonicalised by the harness) already has the slots of its canonical form:
+        // insertion and lookup return invocations over the term's free slots minus the redundant ones, nothing else
+        for (what, x) in [("add_expr", Some(&a)), ("lookup_rec_expr", lk.as_ref())] {
+            if let Some(x) = x {
+                let raw = x.slots();
+                let can = eg.find_applied_id(x).slots();
+                if raw != can {
+                    out.fail(Fail::new("returned-invocation-not-canonical", format!("{}/{what}", pr.kind), format!("{txt}: {what} returned {x:?} with slots {raw:?}, its canonical form has {can:?}"), cj.clone()));
+                    return out;
+                }
             }
         }
         // slots = free slots minus provably redundant ones (oracle), when the probe lies in the oracle universe
